@@ -24,7 +24,7 @@ from frappy.server import Server
 REG = {}       # class registry the generated config files import from
 NUMERIC = ('double', 'int', 'scaled')
 ERROR_KINDS = ('unknown-name', 'unknown-param-property', 'wrong-type-value', 'missing-mandatory', 'needscfg',
-               'inverted-limits', 'bad-module-property', 'optional-not-implemented')
+               'inverted-limits', 'bad-module-property', 'optional-not-implemented', 'value-exceeds-configured-size')
 
 
 def rng_choice_opt(cfg):
@@ -44,7 +44,7 @@ class C10(Check):
     RULE = ('[a quarter of the cases restart the node on the same loaded configuration and judge the second generation] ' 'case = 1..3 generated module classes + configuration files (1..2 files, merged) configuring a random subset '
             'of parameters (bare value / Param(value) / Param(min, max, unit, visibility, readonly, export)) and module '
             'properties, with 0..3 injected errors {unknown name, unknown parameter property, value of the wrong type, '
-            'missing mandatory property, required value missing, inverted limits, bad module property}; distinct = '
+            'missing mandatory property, required value missing, inverted limits, bad module property, Param(value, maxchars/maxbytes/maxlen below the length of that value)}; distinct = '
             'different (case digest, schedule digest); non-trivial = >= 1 parameter with a write method configured (good '
             'configurations) or >= 1 injected error (bad ones)')
     REAL = ['frappy.server.Server.__init__ + _processCfg', 'frappy.config (to_config_path, process_file, Mod/Param/Node, '
@@ -171,6 +171,27 @@ class C10(Check):
             if kind == 'inverted-limits' and not any(p['di']['type'] == 'double' and p['name'] not in ('value', 'target')
                                                      for p in spec['params']):
                 kind = 'wrong-type-value'
+            if kind == 'value-exceeds-configured-size':
+                # Param(<value the class would take>, maxchars / maxbytes / maxlen = <less than its length>)
+                over = None
+                for p in spec['params']:
+                    t = p['di']['type']
+                    if t not in ('string', 'blob', 'array') or p['name'] == 'status':
+                        continue
+                    for _ in range(6):
+                        w = dtgen.valid_wire(rng, p['di'])
+                        n = len(dtgen.to_internal(p['di'], w))
+                        lo = p['di'].get({'string': 'minchars', 'blob': 'minbytes', 'array': 'minlen'}[t], 0)
+                        if n >= 1 and n - 1 >= lo:
+                            over = {'p': p['name'], 'value': w, 'limit': n - 1,
+                                    'prop': {'string': 'maxchars', 'blob': 'maxbytes', 'array': 'maxlen'}[t]}
+                            break
+                    if over:
+                        break
+                if over and 'oversize' not in cfgs[m]:
+                    cfgs[m]['oversize'] = over
+                elif not over:
+                    kind = 'wrong-type-value'
             if kind not in cfgs[m]['errors']:
                 cfgs[m]['errors'].append(kind)
         nfiles = rng.choice([1, 1, 2])
@@ -242,6 +263,10 @@ class C10(Check):
                     bad = '5'
                 kw = [x for x in kw if not x.startswith(tgt['name'] + ' =')]
                 kw.append(f'{tgt["name"]} = {bad}')
+            if 'value-exceeds-configured-size' in errs:
+                o = cfg['oversize']
+                kw = [x for x in kw if not x.startswith(o['p'] + ' =')]
+                kw.append(f'{o["p"]} = Param({pyrepr(byname[o["p"]]["di"], o["value"])}, {o["prop"]} = {o["limit"]})')
             if 'inverted-limits' in errs:
                 tgt = next(p for p in spec['params'] if p['di']['type'] == 'double' and p['name'] not in ('value', 'target'))
                 kw = [x for x in kw if not x.startswith(tgt['name'] + ' =')]
